@@ -36,6 +36,12 @@ def _bulk_units():
             for v in ({'t': 'int', 'e': 'none'}, {'t': 'int', 'e': 'int'}, {'t': 'none', 'e': 'none'})]
 
 
+def _helper_units():
+    hs = [('DynGraph', 'add_star', False), ('DynGraph', 'add_path', False), ('DynGraph', 'add_cycle', False), ('DynDiGraph', 'add_path', False)] \
+        + [(cls, f, True) for cls in ('DynGraph', 'DynDiGraph') for f in ('add_star', 'add_path', 'add_cycle')]
+    return [('contracts.bulk', 'BulkHelper', h, {'t': t}) for h in hs for t in ('int', 'none')]
+
+
 def _ctor_units():
     return [('contracts.ctor', 'Init', (cls,), {'edge_removal': e}) for cls in ('DynGraph', 'DynDiGraph') for e in ('default', 'given')]
 
@@ -57,12 +63,12 @@ PROOF_UNITS = {
     'C15': _dag_units(),
     'C12': _dag_units() + _driver_units(),
     'C13': _dag_units() + _driver_units(),
-    'C01': _kernel_units('removal') + _observer_units('removal') + _bulk_units() + _ctor_units(),
+    'C01': _kernel_units('removal') + _observer_units('removal') + _bulk_units() + _helper_units() + _ctor_units(),
     'C03': _kernel_units('removal') + _ctor_units(),
     'C04': _kernel_units('removal') + _read_units(),
     'C05': [('contracts.stream', 'StreamInteractions', (cls,), {}) for cls in ('DynGraph', 'DynDiGraph')] + _kernel_units('removal') + [('contracts.kernel', 'AddInteraction', (cls,), {'mode': 'removal', 't': 'int', 'e': e, 'inv': 'strong'})
                                        for cls in ('DynGraph', 'DynDiGraph') for e in ('none', 'int')],
-    'C07': _kernel_units('removal') + _kernel_units('accum') + _bulk_units(),
+    'C07': _kernel_units('removal') + _kernel_units('accum') + _bulk_units() + _helper_units(),
     'C02': [('contracts.queries', 'NumberOfInteractionsPair', (cls,), {'mode': m, 't': t}) for cls in ('DynGraph', 'DynDiGraph')
             for m in ('removal', 'accum') for t in ('int', 'none')]
            + [u for u in _observer_units('removal') if u[1] == 'HasInteraction']
